@@ -76,7 +76,7 @@ m = {
  "hooks": {
   "guard": "verif",
   "enable": "go build -tags verif (harness module /verif/harness replaces github.com/crossplane/crossplane by /repo); no hook commits in /repo are needed: all observation points are existing seams",
-  "baseline_off_cmd": "cd /repo && go test -mod=mod -vet=off -count=1 -timeout 25m ./...",
+  "baseline_off_cmd": json.load(open("/root/.vp/BASELINE.json"))["cmd"] if os.path.exists("/root/.vp/BASELINE.json") else "cd /repo && go test -mod=mod -json -vet=off -count=1 -timeout 25m ./...",
   "source_commits": [],
   "add_only": True,
  },
